@@ -78,3 +78,11 @@ Theorem C01_rest_fixed_point : forall r, rest_ok r -> rest_canonical_order r ->
                (forall t', kern_recognise text = KTok t' -> kern_tokenize all_cats t' = Ok text).
 Proof. exact rest_export_fixed_point. Qed.
 Print Assumptions C01_rest_fixed_point.
+
+(* and for CHORDS of any number of notes: on the canonical text (notes separated by single blanks, each with its own
+   duration and the chord's signifiers) the recogniser consumes everything and returns exactly these notes, in order *)
+From KV Require Import ChordProofs.
+Theorem C01_reimport_of_canonical_chord : forall D notes, 2 <= List.length notes -> chord_ok D notes ->
+  kern_recognise (str (print_chord notes)) = KTok (TChord (str (print_chord notes)) (map (chord_note D) notes)).
+Proof. exact recognise_print_chord. Qed.
+Print Assumptions C01_reimport_of_canonical_chord.
